@@ -972,3 +972,4 @@ def run(S):
     shared.permutation_word(S)
     shared.descent(S)
     shared.key_order(S)
+    shared.structure(S)
